@@ -108,18 +108,25 @@ Proof.
   destruct (c =? c0) eqn:E1; [|reflexivity]. apply N.eqb_eq in E1. subst. rewrite E. reflexivity.
 Qed.
 
+Lemma U_wake_consumers cfg s c0 h0 c h : U (wake_consumers cfg s c0 h0) c h = U s c h.
+Proof.
+  unfold wake_consumers, wake_all_of_chan. destruct (cfg_rabbit cfg); [apply U_upd_chan_keep; reflexivity|].
+  destruct (get_conn _ c0) as [cn|]; [|apply U_upd_chan_keep; reflexivity].
+  match goal with |- U (fold_left ?F ?l ?st) c h = _ => assert (H : forall l0 st0, U (fold_left F l0 st0) c h = U st0 c h) end.
+  { induction l0 as [|x t IH]; intros st0; simpl; auto. rewrite IH. destruct (fst x =? h0); auto. apply U_upd_chan_keep; reflexivity. }
+  rewrite H. apply U_upd_chan_keep; reflexivity.
+Qed.
+
 Lemma U_dec_qos cfg s c0 h0 u c h : U (dec_qos_and_consume_next cfg s c0 h0 u) c h = U s c h.
 Proof.
   unfold dec_qos_and_consume_next. destruct (get_chan s c0 h0) as [ch|]; [|reflexivity].
+  rewrite U_wake_consumers.
   destruct (find_consumer ch (u_ctag u)).
-  - destruct (wake_consumer s c0 h0 (u_ctag u)) as [s1 b] eqn:Ew.
-    assert (E1 : forall c h, U s1 c h = U s c h).
-    { intros. replace s1 with (fst (wake_consumer s c0 h0 (u_ctag u))) by (rewrite Ew; reflexivity). apply U_wake_consumer. }
-    destruct (cfg_rabbit cfg).
-    + rewrite !U_upd_chan_keep by reflexivity. apply E1.
+  - destruct (cfg_rabbit cfg).
+    + rewrite !U_upd_chan_keep by reflexivity. reflexivity.
     + destruct (get_conn _ c0) as [cn|] eqn:Ec.
-      * rewrite (U_set_conn_qos _ _ _ _ _ _ Ec). rewrite U_upd_chan_keep by reflexivity. apply E1.
-      * rewrite U_upd_chan_keep by reflexivity. apply E1.
+      * rewrite (U_set_conn_qos _ _ _ _ _ _ Ec). rewrite U_upd_chan_keep by reflexivity. reflexivity.
+      * rewrite U_upd_chan_keep by reflexivity. reflexivity.
   - destruct (get_conn _ c0) as [cn|] eqn:Ec.
     + rewrite (U_set_conn_qos _ _ _ _ _ _ Ec). rewrite U_upd_chan_keep by reflexivity. reflexivity.
     + rewrite U_upd_chan_keep by reflexivity. reflexivity.
